@@ -1,18 +1,620 @@
-//! C15 — not built yet.
+//! C15 — cache pruning is exact, bounded and least-recently-used; the record
+//! count equals the number of distinct entries, also under threads.
+//!
+//! Sequential part: stateright search shared with C05 (`cachemodel`), judged by
+//! the C15 clauses.  Concurrent part: loom explores every interleaving of the
+//! critical sections of small thread programs on the real `SharedCache`
+//! (mutex wrapper hook bound to a loom semaphore).
+
+use crate::c05::{replay_history, run_plans, Plan};
+use crate::cachemodel::*;
 use crate::common::*;
-use serde_json::Value;
+use crate::util::*;
+use dns_resolver::cache::SharedCache;
+use dns_types::protocol::types::*;
+use serde_json::{json, Value};
+use std::collections::{BTreeMap, BTreeSet};
+use std::rc::Rc;
+use std::sync::atomic::{AtomicU64, Ordering};
+use std::sync::{Arc, Mutex};
+use std::time::Duration;
 
-pub fn run(_ctx: &Ctx) -> i32 {
-    eprintln!("C15: check not built");
-    2
+fn alphabet(tier: Tier) -> Vec<Op> {
+    let mut ops = Vec::new();
+    for n in [1u8, 2, 3] {
+        for ty in [Ty::A, Ty::Txt] {
+            for ttl in [1u32, 3] {
+                ops.push(Op::Ins(Rec { name: n, ty, val: 1, ttl }));
+            }
+        }
+    }
+    ops.push(Op::Ins(Rec { name: 1, ty: Ty::A, val: 2, ttl: 2 }));
+    ops.push(Op::InsAll(vec![
+        Rec { name: 2, ty: Ty::A, val: 1, ttl: 1 },
+        Rec { name: 3, ty: Ty::A, val: 1, ttl: 3 },
+    ]));
+    ops.push(Op::InsAll(vec![
+        Rec { name: 1, ty: Ty::A, val: 1, ttl: 3 },
+        Rec { name: 1, ty: Ty::Txt, val: 1, ttl: 1 },
+        Rec { name: 1, ty: Ty::A, val: 2, ttl: 1 },
+    ]));
+    for n in [1u8, 2, 3] {
+        ops.push(Op::Get(n, Q::A));
+    }
+    ops.push(Op::Get(1, Q::Txt));
+    ops.push(Op::Get(1, Q::Any));
+    ops.push(Op::Get(2, Q::Any));
+    ops.push(Op::Prune);
+    ops.push(Op::Adv(1000));
+    ops.push(Op::Adv(3000));
+    if tier == Tier::Thorough {
+        ops.push(Op::Adv(500));
+        ops.push(Op::Ins(Rec { name: 2, ty: Ty::A, val: 2, ttl: 2 }));
+        ops.push(Op::GetUnchecked(1, Q::Any));
+    }
+    ops
 }
 
-pub fn replay(_ctx: &Ctx, _v: &Value) -> i32 {
-    eprintln!("C15: check not built");
-    2
+// ---------------------------------------------------------------------------
+// loom
+// ---------------------------------------------------------------------------
+
+/// Binary semaphore made of loom primitives: the real lock is only taken
+/// while this is held, so loom sees every critical section.
+struct LoomSched {
+    sem: loom::sync::Arc<(loom::sync::Mutex<bool>, loom::sync::Condvar)>,
 }
 
-/// Entry point for `vcheck worker C15 <args...>` (child-process mode).
+impl dns_resolver::verif::sync::Scheduler for LoomSched {
+    fn before_lock(&self, _id: usize) {
+        let (m, cv) = &*self.sem;
+        let mut held = m.lock().unwrap();
+        while *held {
+            held = cv.wait(held).unwrap();
+        }
+        *held = true;
+    }
+    fn after_unlock(&self, _id: usize) {
+        let (m, cv) = &*self.sem;
+        *m.lock().unwrap() = false;
+        cv.notify_one();
+    }
+}
+
+#[derive(Debug, Clone)]
+enum TOp {
+    Ins(Rec),
+    InsAll(Vec<Rec>),
+    Get(u8, Q),
+    Prune,
+}
+
+fn show_top(o: &TOp) -> String {
+    match o {
+        TOp::Ins(r) => show_op(&Op::Ins(*r)),
+        TOp::InsAll(v) => show_op(&Op::InsAll(v.clone())),
+        TOp::Get(n, q) => show_op(&Op::Get(*n, *q)),
+        TOp::Prune => "prune()".into(),
+    }
+}
+
+#[derive(Debug, Clone)]
+struct Program {
+    name: &'static str,
+    desired: usize,
+    /// executed sequentially before the threads start
+    setup: Vec<Op>,
+    threads: Vec<Vec<TOp>>,
+}
+
+fn rec(name: u8, ty: Ty, val: u8, ttl: u32) -> Rec {
+    Rec { name, ty, val, ttl }
+}
+
+fn programs(tier: Tier) -> Vec<Program> {
+    let mut v = vec![
+        Program {
+            name: "upsert || insert_all || prune",
+            desired: 2,
+            setup: vec![],
+            threads: vec![
+                vec![TOp::Ins(rec(1, Ty::A, 1, 3)), TOp::Get(1, Q::Any)],
+                vec![
+                    TOp::Ins(rec(1, Ty::A, 1, 5)),
+                    TOp::InsAll(vec![rec(2, Ty::A, 1, 3), rec(2, Ty::Txt, 1, 3)]),
+                ],
+                vec![TOp::Prune],
+            ],
+        },
+        Program {
+            name: "two writers of one name (different types) || prune with expired pre-state",
+            desired: 2,
+            setup: vec![
+                Op::Ins(rec(1, Ty::A, 1, 1)),
+                Op::Ins(rec(3, Ty::A, 1, 1)),
+                Op::Ins(rec(1, Ty::Txt, 1, 5)),
+                Op::Adv(2000),
+            ],
+            threads: vec![
+                vec![TOp::Ins(rec(1, Ty::A, 1, 3))],
+                vec![TOp::Ins(rec(1, Ty::Txt, 1, 2)), TOp::Ins(rec(2, Ty::A, 1, 2))],
+                vec![TOp::Prune],
+            ],
+        },
+        Program {
+            name: "writer || two readers",
+            desired: 4,
+            setup: vec![Op::Ins(rec(1, Ty::A, 1, 3))],
+            threads: vec![
+                vec![TOp::Ins(rec(1, Ty::A, 2, 3)), TOp::Ins(rec(1, Ty::A, 1, 4))],
+                vec![TOp::Get(1, Q::A), TOp::Get(1, Q::Any)],
+                vec![TOp::Get(1, Q::A)],
+            ],
+        },
+        Program {
+            name: "two pruners at size 1 || writer",
+            desired: 1,
+            setup: vec![
+                Op::Ins(rec(1, Ty::A, 1, 5)),
+                Op::Ins(rec(2, Ty::A, 1, 5)),
+                Op::Ins(rec(3, Ty::A, 1, 5)),
+            ],
+            threads: vec![
+                vec![TOp::Prune],
+                vec![TOp::Prune],
+                vec![TOp::Ins(rec(2, Ty::Txt, 1, 5))],
+            ],
+        },
+    ];
+    if tier == Tier::Thorough {
+        v.push(Program {
+            name: "three writers re-inserting the same record || (none)",
+            desired: 8,
+            setup: vec![Op::Ins(rec(1, Ty::A, 1, 2)), Op::Ins(rec(1, Ty::Txt, 1, 2))],
+            threads: vec![
+                vec![TOp::Ins(rec(1, Ty::A, 1, 3)), TOp::Prune],
+                vec![TOp::Ins(rec(1, Ty::A, 1, 4)), TOp::Get(1, Q::Any)],
+                vec![TOp::Ins(rec(1, Ty::Txt, 1, 5)), TOp::Prune],
+            ],
+        });
+    }
+    v
+}
+
+fn rr_of(x: &Rec) -> ResourceRecord {
+    let data = match x.ty {
+        Ty::A => a([192, 0, 2, x.val]),
+        Ty::Txt => txt(format!("v{}", x.val).as_bytes()),
+    };
+    rr(&name_of_idx(x.name), data, x.ttl)
+}
+
+fn qtype_of(q: Q) -> QueryType {
+    match q {
+        Q::A => QueryType::Record(RecordType::A),
+        Q::Txt => QueryType::Record(RecordType::TXT),
+        Q::Mx => QueryType::Record(RecordType::MX),
+        Q::Any => QueryType::Wildcard,
+    }
+}
+
+/// Run one thread operation; returns a canonical description of its result.
+fn run_top(cache: &SharedCache, op: &TOp) -> String {
+    match op {
+        TOp::Ins(r) => {
+            cache.insert(&rr_of(r));
+            "()".into()
+        }
+        TOp::InsAll(v) => {
+            let rrs: Vec<ResourceRecord> = v.iter().map(rr_of).collect();
+            cache.insert_all(&rrs);
+            "()".into()
+        }
+        TOp::Get(n, q) => {
+            let got = cache.get(&name_of_idx(*n), qtype_of(*q));
+            format!("{:?}", canon_rrs_nottl(&got))
+        }
+        TOp::Prune => format!("{:?}", cache.prune()),
+    }
+}
+
+fn all_inserted(p: &Program) -> BTreeSet<String> {
+    let mut s = BTreeSet::new();
+    let mut add = |r: &Rec| {
+        if r.ttl > 0 {
+            let x = rr_of(r);
+            s.insert(format!(
+                "{} {}",
+                show_name(&x.name),
+                show_data(&x.rtype_with_data)
+            ));
+        }
+    };
+    for o in &p.setup {
+        match o {
+            Op::Ins(r) => add(r),
+            Op::InsAll(v) => v.iter().for_each(&mut add),
+            _ => {}
+        }
+    }
+    for t in &p.threads {
+        for o in t {
+            match o {
+                TOp::Ins(r) => add(r),
+                TOp::InsAll(v) => v.iter().for_each(&mut add),
+                _ => {}
+            }
+        }
+    }
+    s
+}
+
+struct LoomResult {
+    schedules: u64,
+    outcomes: BTreeMap<String, u64>,
+    violations: Vec<(String, String)>,
+    non_linearizable: u64,
+}
+
+/// All outcomes of sequential executions consistent with program order, on
+/// the real cache (used to label loom outcomes as linearizable or not —
+/// informational, see DESIGN C15).
+fn sequential_outcomes(p: &Program) -> BTreeSet<String> {
+    fn go(
+        p: &Program,
+        pos: &mut Vec<usize>,
+        order: &mut Vec<(usize, usize)>,
+        out: &mut BTreeSet<String>,
+    ) {
+        let mut any = false;
+        for t in 0..p.threads.len() {
+            if pos[t] < p.threads[t].len() {
+                any = true;
+                order.push((t, pos[t]));
+                pos[t] += 1;
+                go(p, pos, order, out);
+                pos[t] -= 1;
+                order.pop();
+            }
+        }
+        if !any {
+            out.insert(run_in_order(p, order));
+        }
+    }
+    let mut out = BTreeSet::new();
+    go(p, &mut vec![0; p.threads.len()], &mut Vec::new(), &mut out);
+    out
+}
+
+fn install_clock(start_ns: u64) -> Rc<std::cell::Cell<u64>> {
+    let clock = Rc::new(std::cell::Cell::new(start_ns));
+    let c2 = clock.clone();
+    dns_resolver::verif::clock::set_provider(Some(Rc::new(move || {
+        Duration::from_nanos(c2.get())
+    })));
+    clock
+}
+
+fn setup_cache(p: &Program, clock: &Rc<std::cell::Cell<u64>>) -> SharedCache {
+    let cache = SharedCache::with_desired_size(p.desired);
+    for o in &p.setup {
+        match o {
+            Op::Ins(r) => cache.insert(&rr_of(r)),
+            Op::InsAll(v) => {
+                let rrs: Vec<ResourceRecord> = v.iter().map(rr_of).collect();
+                cache.insert_all(&rrs);
+            }
+            Op::Adv(ms) => clock.set(clock.get() + ms * 1_000_000),
+            Op::Prune => {
+                let _ = cache.prune();
+            }
+            _ => {}
+        }
+    }
+    cache
+}
+
+fn final_state(cache: &SharedCache) -> String {
+    let snap = cache.verif_snapshot();
+    let mut entries = Vec::new();
+    for part in &snap.partitions {
+        for (_, tuples) in &part.records {
+            for (v, e) in tuples {
+                entries.push(format!(
+                    "{} {} @{}",
+                    show_name(&part.name),
+                    show_data(v),
+                    e.as_nanos()
+                ));
+            }
+        }
+    }
+    entries.sort();
+    format!("size={} {:?}", snap.current_size, entries)
+}
+
+fn run_in_order(p: &Program, order: &[(usize, usize)]) -> String {
+    let clock = install_clock(1000 * NS_PER_S);
+    let cache = setup_cache(p, &clock);
+    let mut results: Vec<Vec<String>> = p.threads.iter().map(|_| Vec::new()).collect();
+    for (t, i) in order {
+        results[*t].push(run_top(&cache, &p.threads[*t][*i]));
+    }
+    let s = format!("{:?} => {}", results, final_state(&cache));
+    dns_resolver::verif::clock::set_provider(None);
+    s
+}
+
+fn explore_program(p: &Program, preemption_bound: usize, max_secs: u64) -> LoomResult {
+    let allowed = sequential_outcomes(p);
+    let inserted = all_inserted(p);
+    let schedules = Arc::new(AtomicU64::new(0));
+    let outcomes: Arc<Mutex<BTreeMap<String, u64>>> = Arc::new(Mutex::new(BTreeMap::new()));
+    let violations: Arc<Mutex<Vec<(String, String)>>> = Arc::new(Mutex::new(Vec::new()));
+
+    let mut b = loom::model::Builder::new();
+    b.preemption_bound = Some(preemption_bound);
+    b.max_branches = 100_000;
+    b.max_duration = Some(Duration::from_secs(max_secs));
+
+    let p2 = p.clone();
+    let (sc, oc, vc) = (schedules.clone(), outcomes.clone(), violations.clone());
+    b.check(move || {
+        sc.fetch_add(1, Ordering::Relaxed);
+        let clock = install_clock(1000 * NS_PER_S);
+        let cache = setup_cache(&p2, &clock);
+        let sem = loom::sync::Arc::new((loom::sync::Mutex::new(false), loom::sync::Condvar::new()));
+        dns_resolver::verif::sync::set_scheduler(Some(Rc::new(LoomSched { sem })));
+
+        let results: Arc<Mutex<Vec<Vec<String>>>> =
+            Arc::new(Mutex::new(p2.threads.iter().map(|_| Vec::new()).collect()));
+        let mut handles = Vec::new();
+        for (t, ops) in p2.threads.iter().enumerate() {
+            let cache = cache.clone();
+            let ops = ops.clone();
+            let results = results.clone();
+            let desired = p2.desired;
+            let vc = vc.clone();
+            handles.push(loom::thread::spawn(move || {
+                for op in &ops {
+                    let r = run_top(&cache, op);
+                    if let TOp::Prune = op {
+                        // (overflow, size, expired, evicted): size bound
+                        let size: usize = r
+                            .trim_matches(|c| c == '(' || c == ')')
+                            .split(',')
+                            .nth(1)
+                            .and_then(|s| s.trim().parse().ok())
+                            .unwrap_or(usize::MAX);
+                        if size > desired {
+                            vc.lock().unwrap().push((
+                                "prune-over-size".into(),
+                                format!("concurrent prune reported {size} remaining records, size is {desired}"),
+                            ));
+                        }
+                    }
+                    results.lock().unwrap()[t].push(r);
+                }
+            }));
+        }
+        for h in handles {
+            h.join().unwrap();
+        }
+        dns_resolver::verif::sync::set_scheduler(None);
+
+        // oracle on the final state
+        if let Err(e) = cache.verif_check_invariants() {
+            vc.lock().unwrap().push(("invariants".into(), e));
+        }
+        let snap = cache.verif_snapshot();
+        let mut distinct = BTreeSet::new();
+        let mut stored = 0usize;
+        for part in &snap.partitions {
+            for (_, tuples) in &part.records {
+                for (v, _) in tuples {
+                    stored += 1;
+                    distinct.insert(format!("{} {}", show_name(&part.name), show_data(v)));
+                }
+            }
+        }
+        if snap.current_size != distinct.len() || stored != distinct.len() {
+            vc.lock().unwrap().push((
+                "count-mismatch".into(),
+                format!(
+                    "record count {} but {} distinct entries ({} stored tuples)",
+                    snap.current_size,
+                    distinct.len(),
+                    stored
+                ),
+            ));
+        }
+        for d in &distinct {
+            if !inserted.contains(d) {
+                vc.lock()
+                    .unwrap()
+                    .push(("foreign-entry".into(), format!("cache holds {d} which nobody inserted")));
+            }
+        }
+        let res = results.lock().unwrap().clone();
+        let outcome = format!("{:?} => {}", res, final_state(&cache));
+        // a final sequential prune must be exact
+        clock.set(clock.get() + 10 * NS_PER_S);
+        let before = snap.current_size;
+        let (_, size, expired, evicted) = cache.prune();
+        let after = cache.verif_snapshot();
+        if after.current_size != 0 || size != 0 || expired + evicted != before {
+            vc.lock().unwrap().push((
+                "final-prune".into(),
+                format!(
+                    "after all TTLs elapsed a prune reported size={size} expired={expired} evicted={evicted} with {before} records held, {} remain",
+                    after.current_size
+                ),
+            ));
+        }
+        dns_resolver::verif::clock::set_provider(None);
+        *oc.lock().unwrap().entry(outcome).or_insert(0) += 1;
+    });
+
+    let outcomes = Arc::try_unwrap(outcomes)
+        .map(|m| m.into_inner().unwrap())
+        .unwrap_or_else(|a| a.lock().unwrap().clone());
+    let non_linearizable = outcomes
+        .iter()
+        .filter(|(k, _)| !allowed.contains(*k))
+        .map(|(_, v)| *v)
+        .sum();
+    let violations = violations.lock().unwrap().clone();
+    LoomResult {
+        schedules: schedules.load(Ordering::Relaxed),
+        outcomes,
+        violations,
+        non_linearizable,
+    }
+}
+
+fn run_loom(ctx: &Ctx, report: &mut Report) {
+    let bound = ctx.tier.pick(2, 3);
+    let mut rows = Vec::new();
+    for p in programs(ctx.tier) {
+        let t0 = std::time::Instant::now();
+        let secs = ctx.tier.pick(20, 150);
+        // loom panics on its own internal failures (deadlock, too many
+        // branches): that is a violation of "always terminates" / machinery.
+        let p2 = p.clone();
+        let res = std::panic::catch_unwind(move || explore_program(&p2, bound, secs));
+        match res {
+            Ok(r) => {
+                report.evaluations += r.schedules;
+                report.transitions += r.schedules;
+                report.traces_validated += r.schedules;
+                report.distinct_nontrivial += r.outcomes.len() as u64;
+                report.hist("loom schedules", r.schedules);
+                report.hist("loom distinct outcomes", r.outcomes.len() as u64);
+                let capped = t0.elapsed().as_secs() >= secs;
+                if capped {
+                    report.exhaustive = false;
+                }
+                rows.push(json!({
+                    "program": p.name,
+                    "threads": p.threads.iter().map(|t| t.iter().map(show_top).collect::<Vec<_>>()).collect::<Vec<_>>(),
+                    "setup": p.setup.iter().map(show_op).collect::<Vec<_>>(),
+                    "desired_size": p.desired,
+                    "preemption_bound": bound,
+                    "schedules": r.schedules,
+                    "distinct_outcomes": r.outcomes.len(),
+                    "schedules_with_outcome_not_matching_any_sequential_order(informational)": r.non_linearizable,
+                    "duration_cap_hit": capped,
+                }));
+                let mut seen = BTreeSet::new();
+                for (clause, msg) in r.violations {
+                    if seen.insert(clause.clone()) {
+                        report.violations.push(Violation {
+                            clause: format!("concurrent-{clause}"),
+                            summary: format!("program `{}` (preemption bound {bound}): {msg}", p.name),
+                            replay: json!({"kind": "loom-program", "program": p.name, "preemption_bound": bound}),
+                            slug: None,
+                        });
+                    }
+                }
+            }
+            Err(e) => {
+                dns_resolver::verif::sync::set_scheduler(None);
+                dns_resolver::verif::clock::set_provider(None);
+                let msg = e
+                    .downcast_ref::<String>()
+                    .cloned()
+                    .or_else(|| e.downcast_ref::<&str>().map(|s| s.to_string()))
+                    .unwrap_or_else(|| "loom panicked".into());
+                report.violations.push(Violation {
+                    clause: "concurrent-panic-or-deadlock".into(),
+                    summary: format!("program `{}`: {msg}", p.name),
+                    replay: json!({"kind": "loom-program", "program": p.name, "preemption_bound": bound}),
+                    slug: None,
+                });
+            }
+        }
+    }
+    report.extra.insert("loom".into(), json!(rows));
+}
+
+pub fn run(ctx: &Ctx) -> i32 {
+    let alphabet = alphabet(ctx.tier);
+    let plans: Vec<Plan> = match ctx.tier {
+        Tier::Quick => vec![
+            Plan { desired: 1, tick: false, depth: 5 },
+            Plan { desired: 2, tick: false, depth: 5 },
+            Plan { desired: 3, tick: false, depth: 4 },
+            Plan { desired: 2, tick: true, depth: 4 },
+        ],
+        Tier::Thorough => vec![
+            Plan { desired: 1, tick: false, depth: 7 },
+            Plan { desired: 2, tick: false, depth: 7 },
+            Plan { desired: 3, tick: false, depth: 6 },
+            Plan { desired: 2, tick: true, depth: 5 },
+            Plan { desired: 1, tick: true, depth: 5 },
+        ],
+    };
+    let mut report = Report::new();
+
+    // watchdog for "always terminates": an execution in flight for too long
+    // is reported with its history (the process is ended from here).
+    run_plans(
+        ctx,
+        Focus::C15,
+        &alphabet,
+        &plans,
+        &mut report,
+        ctx.tier.pick(30.0, 420.0),
+    );
+    if report.violations.is_empty() {
+        run_loom(ctx, &mut report);
+    }
+    report.rule = "sequential: stateright search over all operation histories up to the stated depth on a fresh real SharedCache per transition, de-duplicated on (canonical snapshot incl. both priority queues in pop order, reference bookkeeping, depth, verdict); concurrent: loom explores every interleaving (within the preemption bound) of the critical sections of the listed thread programs; non-trivial = histories in which a prune evicted or removed an expired record (max of the two, measured) + distinct loom outcomes".into();
+    report.bounds = json!({
+        "plans": plans.iter().map(|p| json!({"desired_size": p.desired, "tick": p.tick, "depth": p.depth})).collect::<Vec<_>>(),
+        "alphabet_size": alphabet.len(),
+        "loom_preemption_bound": ctx.tier.pick(2, 3),
+    });
+    report.assumptions = vec![
+        "an insert and a lookup that returns a live record count as uses; a lookup returning nothing is an uncertain use; LRU is violated only when an evicted name was certainly used later than a surviving one".into(),
+        "the overflow flag returned by prune is not judged (not part of the statement)".into(),
+        "threads: 3 model threads; every cache operation is one critical section, so more threads add no new shape of interleaving (stated, not checked)".into(),
+        "concurrency oracle = structural invariants + count equality + exact final prune; linearizability of outcomes is reported as information only".into(),
+    ];
+    finish(ctx, report)
+}
+
+pub fn replay(ctx: &Ctx, v: &Value) -> i32 {
+    if v["kind"] == "loom-program" {
+        let name = v["program"].as_str().unwrap_or("");
+        let bound = v["preemption_bound"].as_u64().unwrap_or(2) as usize;
+        for p in programs(Tier::Thorough) {
+            if p.name == name {
+                let r = explore_program(&p, bound, 300);
+                println!(
+                    "program `{}`: {} schedules, {} distinct outcomes",
+                    p.name,
+                    r.schedules,
+                    r.outcomes.len()
+                );
+                for (c, m) in &r.violations {
+                    println!("  finding [{c}]: {m}");
+                }
+                return if r.violations.is_empty() {
+                    println!("replay: property holds on this case");
+                    0
+                } else {
+                    println!("VIOLATION property={} replay=(replayed case)", ctx.id);
+                    1
+                };
+            }
+        }
+        eprintln!("unknown loom program {name}");
+        return 2;
+    }
+    replay_history(ctx, v, Focus::C15)
+}
+
 pub fn worker(_args: &[String]) -> i32 {
     2
 }
